@@ -135,6 +135,19 @@ theorem writes_allowed_tbl_holds : writes_allowed_tbl := by
   unfold writes_allowed_tbl
   decide +kernel
 
+/-- **C14.f** nothing in the library switches the current language behind the user's back: the only calls of
+    `load`/`loadEn`/`loadFr` and of `realize(<language>)` in the source are `load` dispatching to `loadEn`/`loadFr`
+    the documented `Constituent.realize(lang)` and `buildLemmataMap(lang)` (both switch to the language they are given). (A warning, a constructor or a realization that called one of
+    them would make later output depend on what was warned about or realized before.) -/
+def lang_switch_tbl : Prop :=
+  ∀ s ∈ langSwitchCalls, s = ("Lexicon.py", "load", "loadEn") ∨ s = ("Lexicon.py", "load", "loadFr") ∨
+    s = ("Constituent.py", "Constituent.realize", "load") ∨
+    s = ("lemmatize.py", "buildLemmataMap", "load")   -- buildLemmataMap(lang) loads the language it is asked for
+
+theorem lang_switch_tbl_holds : lang_switch_tbl := by
+  unfold lang_switch_tbl
+  decide +kernel
+
 /-- the components the inventory says are written somewhere are exactly those the model's operations write -/
 def modelComps : List Comp := [.counters, .lexicon, .lang, .oneOfMem]
 
